@@ -11,6 +11,7 @@ import os
 import signal
 import subprocess
 import sys
+import tempfile
 import time
 import traceback
 
@@ -177,6 +178,10 @@ def run_job(pid, job, tier, seed, deadline, known_sigs):
     }
     ctx = Ctx(tier)
     try:
+        # workers run in an empty scratch cwd: a stray relative path must never resolve into /verif or /repo
+        safe_cwd = os.path.join(tempfile.gettempdir(), "verif-cwd")
+        os.makedirs(safe_cwd, exist_ok=True)
+        os.chdir(safe_cwd)
         engine = load_engine(pid)
         engine.setup()
         if time.time() > deadline:
